@@ -1,0 +1,126 @@
+//go:build verif
+
+// Contracts for the replicated IRC state machine (machine-checked by
+// /verif's VC generator; comment-only, adds no code).
+package ircserver
+
+// ---------------------------------------------------------------------------
+// Session lookup and lifecycle (C17, C10)
+
+//@ func IRCServer.getSessionLocked
+//@   requires i != nil && i.sessions != nil && i.lastProcessedMu != nil
+//@   ensures found: id in i.sessions ==> result0 == i.sessions[id] && result1 == nil
+//@   ensures gone: !(id in i.sessions) && i.lastProcessed.Id > id.Id ==> result0 == nil && result1 == ErrNoSuchSession
+//@   ensures notyet: !(id in i.sessions) && i.lastProcessed.Id <= id.Id ==> result0 == nil && result1 == ErrSessionNotYetSeen
+//@   modifies
+
+//@ func IRCServer.GetSession
+//@   requires i != nil && i.sessions != nil && i.lastProcessedMu != nil && i.sessionsMu != nil
+//@   ensures found: id in i.sessions ==> result0 == i.sessions[id] && result1 == nil
+//@   ensures gone: !(id in i.sessions) && i.lastProcessed.Id > id.Id ==> result0 == nil && result1 == ErrNoSuchSession
+//@   ensures notyet: !(id in i.sessions) && i.lastProcessed.Id <= id.Id ==> result0 == nil && result1 == ErrSessionNotYetSeen
+//@   modifies
+
+// ---------------------------------------------------------------------------
+// Representation invariant of the replicated state (between entries: wf;
+// inside a handler sessions may carry deleted = true: wfMid is the same
+// without that conjunct).
+
+//@ pred wfSessions(i *IRCServer) = i.sessions != nil && (forall id robust.Id :: id in i.sessions ==> i.sessions[id] != nil && i.sessions[id].Id == id && i.sessions[id].Channels != nil && i.sessions[id].invitedTo != nil)
+//@ pred wfNicks(i *IRCServer) = i.nicks != nil && (forall n lcNick :: n in i.nicks ==> i.nicks[n] != nil)
+//@ pred wfChannels(i *IRCServer) = i.channels != nil && (forall ch lcChan :: ch in i.channels ==> i.channels[ch] != nil && i.channels[ch].nicks != nil && (forall n lcNick :: n in i.channels[ch].nicks ==> i.channels[ch].nicks[n] != nil && n in i.nicks))
+//@ pred wfLocks(i *IRCServer) = i.sessionsMu != nil && i.lastProcessedMu != nil && i.ConfigMu != nil && i.ServerPrefix != nil
+//@ pred wfMid(i *IRCServer) = i != nil && wfLocks(i) && wfSessions(i) && wfNicks(i) && wfChannels(i) && i.svsholds != nil
+
+// A reply context under construction: send() indexes the last message when
+// called again with the same irc.Message.
+//@ pred replyOK(r *Replyctx) = r != nil && (r.lastmsg != nil ==> len(r.Messages) > 0) && (forall k int :: 0 <= k && k < len(r.Messages) ==> r.Messages[k] != nil && r.Messages[k].InterestingFor != nil)
+
+// ---------------------------------------------------------------------------
+// The send helpers (C12: who receives a message)
+
+//@ func IRCServer.send
+//@   requires replyOK(reply) && msg != nil
+//@   ensures ok: replyOK(reply) && result != nil && result.InterestingFor != nil && reply.lastmsg == msg
+//@   ensures last: len(reply.Messages) > 0 && result == reply.Messages[len(reply.Messages)-1]
+//@   ensures same: old(reply.lastmsg) == msg ==> len(reply.Messages) == old(len(reply.Messages)) && reply.replyid == old(reply.replyid) && result == old(reply.Messages[len(reply.Messages)-1])
+//@   ensures appended: old(reply.lastmsg) != msg ==> fresh(result) && fresh(result.InterestingFor) && len(reply.Messages) == old(len(reply.Messages)) + 1 && reply.replyid == old(reply.replyid) + 1 && result.Id.Id == reply.msgid && result.Id.Reply == reply.replyid && len(result.InterestingFor) == 0 && (forall k uint64 :: !(k in result.InterestingFor))
+//@   ensures kept: forall k int :: 0 <= k && k < old(len(reply.Messages)) ==> reply.Messages[k] == old(reply.Messages[k])
+//@   modifies Replyctx.replyid[reply], Replyctx.Messages[reply], Replyctx.lastmsg[reply]
+
+//@ pred lastIF(r *Replyctx) = r.Messages[len(r.Messages)-1].InterestingFor
+// recipients already on the message before this send call (a continuation re-uses the last message)
+//@ pred hadBefore(r *Replyctx, msg *irc.Message, k uint64) = old(r.lastmsg) == msg && k in old(r.Messages[len(r.Messages)-1].InterestingFor)
+
+//@ func IRCServer.sendUser
+//@   requires replyOK(reply) && msg != nil && user != nil
+//@   ensures ok: replyOK(reply) && result == msg && reply.lastmsg == msg && len(reply.Messages) > 0
+//@   ensures recipients: forall k uint64 :: k in lastIF(reply) <==> hadBefore(reply, msg, k) || k == user.Id.Id
+//@   ensures count: old(reply.lastmsg) == msg ==> len(reply.Messages) == old(len(reply.Messages))
+//@   ensures count1: old(reply.lastmsg) != msg ==> len(reply.Messages) == old(len(reply.Messages)) + 1
+//@   ensures kept: forall j int :: 0 <= j && j < old(len(reply.Messages)) ==> reply.Messages[j] == old(reply.Messages[j])
+//@   modifies Replyctx.replyid[reply], Replyctx.Messages[reply], Replyctx.lastmsg[reply], maptype(map[uint64]bool)[reply.Messages[len(reply.Messages)-1].InterestingFor]
+
+//@ func IRCServer.sendChannel
+//@   requires i != nil && i.nicks != nil && c != nil && replyOK(reply) && msg != nil
+//@   requires members: forall n lcNick :: n in c.nicks ==> n in i.nicks && i.nicks[n] != nil
+//@   ensures ok: replyOK(reply) && result == msg && reply.lastmsg == msg && len(reply.Messages) > 0
+//@   ensures recipients: forall k uint64 :: k in lastIF(reply) <==> hadBefore(reply, msg, k) || (exists n lcNick :: n in c.nicks && i.nicks[n].Id.Id == k)
+//@   ensures kept: forall j int :: 0 <= j && j < old(len(reply.Messages)) ==> reply.Messages[j] == old(reply.Messages[j])
+//@   modifies Replyctx.replyid[reply], Replyctx.Messages[reply], Replyctx.lastmsg[reply], maptype(map[uint64]bool)[reply.Messages[len(reply.Messages)-1].InterestingFor]
+//@   loop range c.nicks
+//@     invariant robustmsg != nil && robustmsg.InterestingFor != nil
+//@     invariant forall n lcNick :: seen(n) ==> n in c.nicks
+//@     invariant forall k uint64 :: k in robustmsg.InterestingFor <==> hadBefore(reply, msg, k) || (exists n lcNick :: seen(n) && i.nicks[n].Id.Id == k)
+
+//@ func IRCServer.sendChannelButOne
+//@   requires i != nil && i.nicks != nil && c != nil && replyOK(reply) && msg != nil
+//@   requires members: forall n lcNick :: n in c.nicks ==> n in i.nicks && i.nicks[n] != nil
+//@   ensures ok: replyOK(reply) && result == msg && reply.lastmsg == msg && len(reply.Messages) > 0
+//@   ensures recipients: forall k uint64 :: k in lastIF(reply) <==> hadBefore(reply, msg, k) || (exists n lcNick :: n in c.nicks && i.nicks[n] != user && i.nicks[n].Id.Id == k)
+//@   ensures kept: forall j int :: 0 <= j && j < old(len(reply.Messages)) ==> reply.Messages[j] == old(reply.Messages[j])
+//@   modifies Replyctx.replyid[reply], Replyctx.Messages[reply], Replyctx.lastmsg[reply], maptype(map[uint64]bool)[reply.Messages[len(reply.Messages)-1].InterestingFor]
+//@   loop range c.nicks
+//@     invariant robustmsg != nil && robustmsg.InterestingFor != nil
+//@     invariant forall n lcNick :: seen(n) ==> n in c.nicks
+//@     invariant forall k uint64 :: k in robustmsg.InterestingFor <==> hadBefore(reply, msg, k) || (exists n lcNick :: seen(n) && i.nicks[n] != user && i.nicks[n].Id.Id == k)
+
+//@ func IRCServer.sendAllUsers
+//@   requires i != nil && wfNicks(i) && replyOK(reply) && msg != nil
+//@   ensures ok: replyOK(reply) && result == msg && reply.lastmsg == msg && len(reply.Messages) > 0
+//@   ensures recipients: forall k uint64 :: k in lastIF(reply) <==> hadBefore(reply, msg, k) || (exists n lcNick :: n in i.nicks && i.nicks[n].Id.Id == k)
+//@   ensures kept: forall j int :: 0 <= j && j < old(len(reply.Messages)) ==> reply.Messages[j] == old(reply.Messages[j])
+//@   modifies Replyctx.replyid[reply], Replyctx.Messages[reply], Replyctx.lastmsg[reply], maptype(map[uint64]bool)[reply.Messages[len(reply.Messages)-1].InterestingFor]
+//@   loop range i.nicks
+//@     invariant robustmsg != nil && robustmsg.InterestingFor != nil
+//@     invariant forall n lcNick :: seen(n) ==> n in i.nicks
+//@     invariant forall k uint64 :: k in robustmsg.InterestingFor <==> hadBefore(reply, msg, k) || (exists n lcNick :: seen(n) && i.nicks[n].Id.Id == k)
+
+//@ func IRCServer.sendServices
+//@   requires i != nil && replyOK(reply) && msg != nil
+//@   ensures ok: replyOK(reply) && result == msg && reply.lastmsg == msg && len(reply.Messages) > 0
+//@   ensures recipients: forall k uint64 :: k in lastIF(reply) <==> hadBefore(reply, msg, k) || (exists j int :: 0 <= j && j < len(i.serverSessions) && i.serverSessions[j] == k)
+//@   ensures kept: forall j int :: 0 <= j && j < old(len(reply.Messages)) ==> reply.Messages[j] == old(reply.Messages[j])
+//@   modifies Replyctx.replyid[reply], Replyctx.Messages[reply], Replyctx.lastmsg[reply], maptype(map[uint64]bool)[reply.Messages[len(reply.Messages)-1].InterestingFor]
+//@   loop range i.serverSessions
+//@     invariant robustmsg != nil && robustmsg.InterestingFor != nil && 0 - 1 <= rangeindex && rangeindex < len(i.serverSessions)
+//@     invariant forall k uint64 :: k in robustmsg.InterestingFor <==> hadBefore(reply, msg, k) || (exists j int :: 0 <= j && j <= rangeindex && i.serverSessions[j] == k)
+
+// Everybody who shares a channel with user (channels user lists that still exist).
+//@ func IRCServer.sendCommonChannels
+//@   requires i != nil && i.nicks != nil && i.channels != nil && user != nil && replyOK(reply) && msg != nil
+//@   requires chans: forall ch lcChan :: ch in i.channels ==> i.channels[ch] != nil && (forall n lcNick :: n in i.channels[ch].nicks ==> n in i.nicks && i.nicks[n] != nil)
+//@   ensures ok: replyOK(reply) && result == msg && reply.lastmsg == msg && len(reply.Messages) > 0
+//@   ensures recipients: forall k uint64 :: k in lastIF(reply) <==> hadBefore(reply, msg, k) || (exists ch lcChan, n lcNick :: ch in user.Channels && ch in i.channels && n in i.channels[ch].nicks && i.nicks[n].Id.Id == k)
+//@   ensures kept: forall j int :: 0 <= j && j < old(len(reply.Messages)) ==> reply.Messages[j] == old(reply.Messages[j])
+//@   modifies Replyctx.replyid[reply], Replyctx.Messages[reply], Replyctx.lastmsg[reply], maptype(map[uint64]bool)[reply.Messages[len(reply.Messages)-1].InterestingFor]
+//@   loop range user.Channels
+//@     invariant robustmsg != nil && robustmsg.InterestingFor != nil
+//@     invariant forall ch lcChan :: seen(ch) ==> ch in user.Channels
+//@     invariant forall k uint64 :: k in robustmsg.InterestingFor <==> hadBefore(reply, msg, k) || (exists ch lcChan, n lcNick :: seen(ch) && ch in i.channels && n in i.channels[ch].nicks && i.nicks[n].Id.Id == k)
+//@   loop range c.nicks
+//@     invariant robustmsg != nil && robustmsg.InterestingFor != nil && c != nil && ok && c == i.channels[channelname] && channelname in i.channels && channelname in user.Channels
+//@     invariant forall n lcNick :: seen(n) ==> n in c.nicks
+//@     invariant forall ch lcChan :: seen(ch, "range user.Channels") ==> ch in user.Channels
+//@     invariant seen(channelname, "range user.Channels")
+//@     invariant forall k uint64 :: k in robustmsg.InterestingFor <==> hadBefore(reply, msg, k) || (exists ch lcChan, n lcNick :: seen(ch, "range user.Channels") && ch != channelname && ch in i.channels && n in i.channels[ch].nicks && i.nicks[n].Id.Id == k) || (exists n lcNick :: seen(n) && i.nicks[n].Id.Id == k)
